@@ -342,7 +342,11 @@ def body_failure_table(fb):
         selfv[fields.index("env")] = Val("importer-env")
         if "import_end" in fields:
             selfv[fields.index("import_end")] = False
-        E = Val("the-error")
+        # the error as the Located value it is (its payload is what has to come back; code on the way may take it apart and
+        # re-locate it)
+        EP = Val("the-error")
+        E = Enum(0, [EP, some([77, 7])])
+        E.name, E.adt = "Located", "error::Located"
         ev = []
 
         def icpt(mc, c, a, tt, g, scenario=scenario, first=first, E=E, ev=ev, X1=X1, D1=D1):
@@ -374,7 +378,7 @@ def body_failure_table(fb):
         except (absint.Stuck, absint.Loop) as e:
             rows.append((scenario, {"stuck": str(e)}))
             continue
-        rows.append((scenario, {"result": res, "events": list(ev), "error": E,
+        rows.append((scenario, {"result": res, "events": list(ev), "error": EP,
                                 "import_end_after": selfv[fields.index("import_end")] if "import_end" in fields else None}))
     return f, rows
 
